@@ -128,6 +128,8 @@ def run(F, R):
     transport_registration_rule(F, R, 'N9', op='notify')
     from . import C08 as _c8
     _qctor = [b['id'] for b in queue_entry_points(F, M) if b.get('sig', '').find('-> core::result::Result<%s<' % M.queue_adt) >= 0]
+    # N11: the queue runs in the event-index mode it was constructed with: its mode flags are the constructor's arguments (C08.H3)
+    guard(R, 'N11', 'ctor-flags', lambda: _c8.queue_ctor_flags(F, R, M, rule='N11'))
     # N10: a notification sent before DRIVER_OK is one the device may ignore: constructors kick their pre-filled queues only after
     # finish_init (C08.H1)
     _c8.h1_constructors(F, RuleProxy(R, {'H3': 'N6', 'H1': 'N10'}, only=lambda inst: inst.endswith('arg-29') or inst.endswith(':no-notify-before-driver-ok')), M, _qctor)
